@@ -20,7 +20,8 @@ def run_seed(seed, prop, tier, index):
 
 
 def scratch_root():
-    return os.path.join(SCRATCH_BASE, "gaisim.%d" % os.getpid())
+    # (fixed width: payloads and outputs that contain the scratch path then have the same length in every run)
+    return os.path.join(SCRATCH_BASE, "gaisim.%07d" % os.getpid())
 
 
 _worker_root = None
@@ -28,7 +29,7 @@ _worker_root = None
 
 def _worker_init(base):
     global _worker_root
-    _worker_root = os.path.join(base, "w%d" % os.getpid())
+    _worker_root = os.path.join(base, "w%07d" % os.getpid())
     os.makedirs(_worker_root, exist_ok=True)
 
 
